@@ -14,6 +14,7 @@ import Mrm.Model.Collection
 import Mrm.Spec.Collection
 import Mrm.DriverAccess
 import Mrm.Spec.Classify
+import Mrm.DriverElements
 
 open Lean
 
@@ -153,6 +154,9 @@ def handle (j : Json) : Except String Json := do
   | "access" =>
     let ro ← (j.getObjVal? "ro").bind xmlOfJson
     handleAccess ro (j.getObjVal? "impl").toOption
+  | "elements" =>
+    let m ← (j.getObjVal? "msg").bind xmlOfJson
+    handleElements m (j.getObjVal? "impl_exposed").toOption
   | "spaces" =>
     -- every scalar value the model treats as whitespace (the table behind `pyStrip`)
     let cps := (List.range 0x110000).filter (fun n => (n < 0xD800 || n > 0xDFFF) && pyIsSpace (Char.ofNat n))
